@@ -34,7 +34,7 @@ type Profile struct {
 	BoundaryTo  []string        // preferred deadline kinds for boundary-aimed block gaps
 	DecayBias   float64         // probability that an asset decays (default 0.35)
 	MinAssets   int             // at least this many assets (C19: several assets and reward denoms per validator)
-	JailOnly    bool            // downtime slash fraction 0: validators are jailed (leave the bonded set) without any value change
+	JailOnly    float64         // per run: downtime slash fraction 0, validators are jailed (leave the bonded set) without any value change and without a slash callback
 	PDrain      float64         // per block: start a drain (every known position of one asset exits in full over two blocks, then a new staking cycle begins)
 	PBurst      float64         // per block: start a packed scenario (same-block multi-denom/multi-validator exits, fan-in redelegations, ...)
 	PExport     float64         // per block: export/import (hard fork) at the block boundary
@@ -137,7 +137,7 @@ func genConfig(rng *RNG, p *Profile) Config {
 	c.SignedWindow = int64(rng.Range(3, 20))
 	c.MinSigned = []string{"0.05", "0.5", "0.9"}[rng.Intn(3)]
 	c.SlashDowntime = []string{"0.0001", "0.01", "0.5", "1"}[rng.Intn(4)]
-	if p.JailOnly {
+	if p.JailOnly > 0 && rng.Chance(p.JailOnly) {
 		c.SlashDowntime = "0"
 	}
 	c.SlashDoubleSign = []string{"0.0001", "0.05", "0.5", "1"}[rng.Intn(4)]
@@ -607,7 +607,7 @@ func profileForTier(prop string) *Profile {
 		// clean configuration: no value-changing events between accrual and claim (those are C12)
 		p.Inflation = 1
 		p.PSlash, p.PEvidence, p.PDowntime = 0, 0, 0.06
-		p.JailOnly = true // leaving and re-entering the bonded set is not a value-changing event
+		p.JailOnly = 1 // leaving and re-entering the bonded set is not a value-changing event
 		p.W["unjail"] = 8
 		p.W["create_validator"] = 2
 		p.TakeRates = []string{"0"}
@@ -633,7 +633,8 @@ func profileForTier(prop string) *Profile {
 		p.W["unjail"] = 6
 		p.W["gov_update"] = 6
 		p.W["create_validator"] = 3
-		p.PSlash, p.PEvidence, p.PDowntime = 0.1, 0.04, 0.05
+		p.PSlash, p.PEvidence, p.PDowntime = 0.1, 0.04, 0.07
+		p.JailOnly = 0.3 // a validator that is jailed without a slash leaves the set through AfterValidatorBeginUnbonding only
 		p.Inflation = 0.3
 		p.MaxOps = 3
 	case "C09":
